@@ -350,17 +350,65 @@ def _px(o, cname):
     return Proxy(o, CLASSES[cname])
 
 
+_variator_fields = record_init("masters", "location_to_master", "model")
+
+
+def _variator_init(ex, st, self, args, kwargs, node):
+    """Variator(masters, location_to_master, model): the three dataclass fields, plus the SPECIFICATION-ONLY field `witness`
+    (key -> a position b such that the b-th master sits at that key's location and is the one filed under the key, whenever
+    such a position exists: a choice function, definable for every object, which names the witness of "every key leads to a
+    master at that location" so that the statement needs no existential)."""
+    _variator_fields(ex, st, self, args, kwargs, node)
+    w = fresh(Map(KEY, INT), "witness")
+    masters = lift(ex.read_field(st, self, "masters"))
+    l2m = ex.read_field(st, self, "location_to_master")
+    so = l2m.ty.sort()
+    model = ex.read_field(st, self, "model")
+    olocs = lift(ex.read_field(st, model, "origLocations"))
+    pairs = ex.field_array(st, "Location", "pairs")
+
+    def lk(pairs_term):  # lockey(...) exactly as the clause language expands it (a non-recursive spec function is inlined)
+        return lift(ex.apply_spec(api_specfn("lockey"), [Val(KEY, pairs_term)], st, node))
+
+    k = fresh(KEY, "wk")
+    b = z3.Int(fresh_name("wb"))
+
+    def P(bb):
+        return z3.And(bb >= 0, bb < z3.Length(masters), lk(z3.Select(pairs, olocs[bb])) == k, z3.Select(so.map(lift(l2m)), k) == masters[bb])
+
+    # (prenex form of: key k present and SOME position satisfies P  =>  position witness[k] satisfies P)
+    st.assume(z3.ForAll([k, b], z3.Implies(z3.And(z3.Select(so.dom(lift(l2m)), k), P(b)), P(z3.Select(w, k)))))
+    ex.write_field(st, self, "witness", Val(Map(KEY, INT), w), node)
+
+
+_variator_init.modifies = tuple(_variator_fields.modifies) + ("?.witness",)
+
+
+def _rt_witness(o):
+    out = {}
+    for k, m in o.location_to_master.items():
+        for b, mm in enumerate(o.masters):
+            if mm is m and tuple(sorted(o.model.origLocations[b].items())) == k:
+                out[k] = b
+                break
+        else:
+            out[k] = -1
+    return out
+
+
 cls(
     "Variator",
-    fields={"masters": List(Ref("MathObj")), "location_to_master": Dict(KEY, Ref("MathObj")), "model": Ref("VariationModel")},
-    methods={"__init__": record_init("masters", "location_to_master", "model")},
+    fields={"masters": List(Ref("MathObj")), "location_to_master": Dict(KEY, Ref("MathObj")), "model": Ref("VariationModel"), "witness": Map(KEY, INT)},
+    methods={"__init__": _variator_init},
     derived={"content": _variator_content},
     views={
         "masters": lambda o: [_px(m, "MathObj") for m in o.masters],
         "location_to_master": lambda o: {k: _px(m, "MathObj") for k, m in o.location_to_master.items()},
         "content": lambda o: None,
+        "witness": _rt_witness,
     },
-    notes="ufo2ft.instantiator.Variator (frozen dataclass): its three fields; `content` = the current content of all fontMath objects",
+    notes="ufo2ft.instantiator.Variator (frozen dataclass): its three fields; `content` = the current content of all fontMath objects; "
+    "`witness` = specification-only choice function naming, for a key of location_to_master, a master position at that location",
 )
 
 _KEYOF = "lockey(normalized_location.pairs)"
@@ -570,16 +618,24 @@ contract(
         "masters-in-order": "len(result.masters) == len(items) and all(result.masters[b] == items[b][1] for b in range(len(items)))",
         # the model is built from the locations in the same order
         "model-locations": "len(result.model.origLocations) == len(items) and all(result.model.origLocations[b] == items[b][0] for b in range(len(items))) and result.model.axisOrder == axis_order",
-        # every master is found under the key of its own location (a later master at the same location wins) ...
-        "keys-cover": "all(" + _IK.format("b") + " in result.location_to_master for b in range(len(items)))",
-        # ... and every key leads to a master that sits at that location
-        "keys-sound": "all(any(" + _IK.format("b") + " == k and result.location_to_master[k] == items[b][1] for b in range(len(items))) for k in result.location_to_master)",
+        # every master is found under the key of its own location (a later master at the same location wins), and every key leads to a
+        # master that sits at that location (`witness` names its position: no existential).  Stated on the new Variator's own fields, the form in
+        # which the Instantiator's cache invariant carries them; with masters-in-order / model-locations this is the same about `items`.
+        "own-keys-cover": "all(lockey(items_of(result.model.origLocations[b])) in result.location_to_master for b in range(len(result.masters)))",
+        "own-keys-sound": "all(0 <= result.witness[k] and result.witness[k] < len(result.masters) and lockey(items_of(result.model.origLocations[result.witness[k]])) == k"
+        " and result.location_to_master[k] == result.masters[result.witness[k]] for k in result.location_to_master)",
     },
     canaries={"first-master-everywhere": "all(result.location_to_master[k] == items[0][1] for k in result.location_to_master)"},
     locals={"masters": List(Ref("MathObj")), "master_locations": List(Ref("Location")), "location_to_master": Dict(KEY, Ref("MathObj"))},
     globals={"fresh": rt_fresh, **_ACCESSORS},
     ghost_vars={"wi": (Dict(KEY, INT), "{}")},
     ghost={"location_to_master[location_to_key(normalized_location)] = master": ["wi = {**wi, lockey(items_of(normalized_location)): i}"]},
+    # the loop's witness in terms of the lists handed to the constructor (names the position that the choice function `witness` needs)
+    hints={
+        "model = varLib.models.VariationModel(master_locations, axis_order)": [
+            "all(0 <= wi[k] and wi[k] < len(masters) and masters[wi[k]] == location_to_master[k] and lockey(items_of(master_locations[wi[k]])) == k for k in location_to_master)"
+        ]
+    },
     loops={
         "for (normalized_location, master) in items": Loop(
             index="i",
@@ -953,7 +1009,7 @@ FAMILIES = {
 }
 
 
-def rt_designspace(family, frac=True, rules=True, empty_s=False, extra_glyph=False, default_layer_sparse_subset=("a", "a.alt", "b")):
+def rt_designspace(family, frac=True, rules=True, empty_s=False, extra_glyph=False, default_layer_sparse_subset=("a", "a.alt", "b"), empty_s_index=None):
     """A real in-memory DesignSpaceDocument with ufoLib2 source fonts.  Returns the document."""
     import logging
 
@@ -979,7 +1035,8 @@ def rt_designspace(family, frac=True, rules=True, empty_s=False, extra_glyph=Fal
         full = {**default_design, **loc}
         is_default = full == default_design
         if kind == "font":
-            d = rt_master_font_desc(tagloc(loc), k, frac, empty_s=empty_s and not is_default and k == len(sources) - 1, default=is_default)
+            # `s` is left without outline in the LAST non-default master (empty_s) or in the master of the given index (empty_s_index)
+            d = rt_master_font_desc(tagloc(loc), k, frac, empty_s=(empty_s and not is_default and k == len(sources) - 1) or k == empty_s_index, default=is_default)
             if extra_glyph and not is_default:
                 d["glyphs"]["only.here"] = {"width": 100}
             if not is_default:
